@@ -85,7 +85,8 @@ def run_unit(u, tier, seed, canary):
         fh.write(text)
     rl = getattr(u, "rlimit", 30)
     cmd, out, err, rc, wall = V.run_verus(path, rlimit=rl, timeout=getattr(u, "timeout", 900),
-                                          multiple_errors=(200 if canary else 20), seed=seed if tier == "thorough" and seed else None)
+                                          multiple_errors=(200 if canary else 20),
+                                          seed=(int(os.environ["VERIF_Z3_SEED"]) if os.environ.get("VERIF_Z3_SEED") else (seed if tier == "thorough" and seed else None)))
     res = V.classify(u, spans, out, err, rc, wall, cmd)
     res.path, res.text = path, text
     return res
